@@ -48,7 +48,7 @@ fn cfg_for(sink: Sink, s: &str, enc: &str) -> Cfg {
         Sink::ScriptPrepend => t(Op::Prepend(s, false), "script"),
         Sink::CommentAfter => HSpec::with_ops(HKind::DocComments, "", vec![Op::After(s, false)]),
         Sink::DocEnd => HSpec::with_ops(HKind::DocEnd, "", vec![Op::Append(s, false)]),
-        Sink::AttrValue => t(Op::SetAttr("k".into(), s), "div"),
+        Sink::AttrValue => HSpec::with_ops(HKind::Element, "div", vec![Op::SetAttr("k".into(), "plain".into()), Op::SetAttr("k".into(), s)]),
         Sink::AttrName => t(Op::SetAttr(s, "v".into()), "div"),
         Sink::TagName => t(Op::SetTagName(s), "div"),
         Sink::CommentText => HSpec::with_ops(HKind::DocComments, "", vec![Op::SetText(s)]),
